@@ -235,7 +235,9 @@ __CPROVER_ensures(__CPROVER_return_value == 0 ==> (vf_n_chk_pub >= 1 && vf_st_ch
 	__CPROVER_assigns(VF_EC_STATUS_ASSIGNS, vf_g.pop)				\
 	__CPROVER_ensures(VF_EC_STATUS_ENSURES)						\
 	__CPROVER_ensures(vf_st_pop == __CPROVER_return_value && vf_n_pop == __CPROVER_old(vf_n_pop) + 1u &&	\
-	    vf_pop_fn == (id) && vf_pop_a == VF_ID(A) && vf_pop_b == VF_ID(B) && vf_pop_c == (unsigned long)(C))
+	    vf_pop_fn == (id) && vf_pop_a == VF_ID(A) && vf_pop_b == VF_ID(B) && vf_pop_c == (unsigned long)(C))	\
+	__CPROVER_ensures(VF_IO_SLOTS4(vf_n_pop, vf_pop_fnk, (id)) && VF_IO_SLOTS4(vf_n_pop, vf_pop_ak, VF_ID(A)) &&	\
+	    VF_IO_SLOTS4(vf_n_pop, vf_pop_bk, VF_ID(B)) && VF_IO_SLOTS4(vf_n_pop, vf_pop_ck, (unsigned long)(C)))
 
 /* a := (b.x, b.y, 1) or (0, 0, 0) for infinity */
 #ifdef VF_ENFORCE_ec_point_proj_import_affine
@@ -349,6 +351,9 @@ __CPROVER_ensures(__CPROVER_return_value == 0 ==> (
     VF_ASSIGNED_FROM(vf_pop_b + offsetof(ec_point_proj_t, x), VF_ID(&b->x)) &&
     VF_ASSIGNED_FROM(vf_pop_b + offsetof(ec_point_proj_t, y), VF_ID(&curve->p)) &&
     VF_ASSIGNED_FROM(vf_pop_b + offsetof(ec_point_proj_t, z), VF_ID(&b->z))))
+/* ... its y is p - b.y: the first modular subtraction is (copy of p) - b.y modulo p */
+__CPROVER_ensures(__CPROVER_return_value == 0 ==> (vf_n_msub == 1 && vf_msub_bn0 == vf_pop_b + offsetof(ec_point_proj_t, y) &&
+    vf_msub_n0 == VF_ID(&b->y) && vf_msub_m0 == VF_ID(&curve->p)))
 #endif
 ;
 
@@ -364,7 +369,7 @@ __CPROVER_ensures(__CPROVER_return_value == 0 ==> (
 #ifdef VF_ENFORCE_ec_point_proj_add_mix
 #define VF_G_padd_mix	VF_EC_ENFORCED_GHOST
 #else
-#define VF_G_padd_mix	VF_POP_CALLEE(VF_POP_add_mix, a, b, 0)
+#define VF_G_padd_mix	VF_POP_CALLEE(VF_POP_add_mix, a, b, (long)b->infinity)	/* c = infinity flag of the affine operand */
 #endif
 static inline int
 ec_point_proj_add_mix(ec_point_proj_p a, ec_point_p b, ec_curve_p curve)
@@ -391,7 +396,7 @@ __CPROVER_ensures((b->infinity == 0 && !VF_EC_PP_INF_OLD(a) && vf_n_msub >= 2 &&
 #ifdef VF_ENFORCE_ec_point_proj_sub_mix
 #define VF_G_psub_mix	VF_EC_ENFORCED_GHOST
 #else
-#define VF_G_psub_mix	VF_POP_CALLEE(VF_POP_sub_mix, a, b, 0)
+#define VF_G_psub_mix	VF_POP_CALLEE(VF_POP_sub_mix, a, b, (long)b->infinity)
 #endif
 static inline int
 ec_point_proj_sub_mix(ec_point_proj_p a, ec_point_p b, ec_curve_p curve)
@@ -403,9 +408,13 @@ __CPROVER_ensures(__CPROVER_return_value == 0 ==> VF_EC_PP_WF(*a))
 #ifdef VF_ENFORCE_ec_point_proj_sub_mix
 __CPROVER_ensures(__CPROVER_return_value == 0 ==> (vf_n_pop == 1 && vf_pop_fn == VF_POP_add_mix && vf_st_pop == 0 &&
     vf_pop_a == VF_ID(a) && vf_pop_b != VF_ID(b)))
+/* the operand handed to the addition is -b = (b.x, p - b.y, b.infinity) */
 __CPROVER_ensures(__CPROVER_return_value == 0 ==> (
     VF_ASSIGNED_FROM(vf_pop_b + offsetof(ec_point_t, x), VF_ID(&b->x)) &&
     VF_ASSIGNED_FROM(vf_pop_b + offsetof(ec_point_t, y), VF_ID(&curve->p))))
+__CPROVER_ensures(__CPROVER_return_value == 0 ==> (vf_n_msub == 1 && vf_msub_bn0 == vf_pop_b + offsetof(ec_point_t, y) &&
+    vf_msub_n0 == VF_ID(&b->y) && vf_msub_m0 == VF_ID(&curve->p)))
+__CPROVER_ensures(__CPROVER_return_value == 0 ==> vf_pop_c == (unsigned long)(long)b->infinity)
 #endif
 ;
 
@@ -421,6 +430,10 @@ __CPROVER_ensures(__CPROVER_return_value == 0 ==> VF_EC_POINT_WF(*a))
 #ifdef VF_ENFORCE_ec_point_proj_add_affine
 VF_AFFINE_BINOP_CONTRACT(ec_point_proj_add_affine, VF_EC_ENFORCED_GHOST, VF_POP_add_mix)
 __CPROVER_ensures(__CPROVER_return_value == 0 ==> (vf_n_pop == 3 && vf_pop_fn == VF_POP_export_affine && vf_pop_b == VF_ID(a)))
+/* import(tm, a); add_mix(tm, b); export(tm, a) - the mixed operation gets the caller's b itself */
+__CPROVER_ensures(__CPROVER_return_value == 0 ==> (vf_pop_fnk[0] == VF_POP_import_affine && vf_pop_bk[0] == VF_ID(a) &&
+    vf_pop_fnk[1] == VF_POP_add_mix && vf_pop_ak[1] == vf_pop_ak[0] && vf_pop_bk[1] == VF_ID(b) &&
+    vf_pop_ck[1] == (unsigned long)(long)b->infinity && vf_pop_ak[2] == vf_pop_ak[0]))
 ;
 #else
 VF_AFFINE_BINOP_CONTRACT(ec_point_proj_add_affine, VF_POP_CALLEE(VF_POP_add, a, b, 1), VF_POP_add_mix)
@@ -429,11 +442,76 @@ VF_AFFINE_BINOP_CONTRACT(ec_point_proj_add_affine, VF_POP_CALLEE(VF_POP_add, a, 
 #ifdef VF_ENFORCE_ec_point_proj_sub_affine
 VF_AFFINE_BINOP_CONTRACT(ec_point_proj_sub_affine, VF_EC_ENFORCED_GHOST, VF_POP_sub_mix)
 __CPROVER_ensures(__CPROVER_return_value == 0 ==> (vf_n_pop == 3 && vf_pop_fn == VF_POP_export_affine && vf_pop_b == VF_ID(a)))
+__CPROVER_ensures(__CPROVER_return_value == 0 ==> (vf_pop_fnk[0] == VF_POP_import_affine && vf_pop_bk[0] == VF_ID(a) &&
+    vf_pop_fnk[1] == VF_POP_sub_mix && vf_pop_ak[1] == vf_pop_ak[0] && vf_pop_bk[1] == VF_ID(b) &&
+    vf_pop_ck[1] == (unsigned long)(long)b->infinity && vf_pop_ak[2] == vf_pop_ak[0]))
 ;
 #else
 VF_AFFINE_BINOP_CONTRACT(ec_point_proj_sub_affine, VF_POP_CALLEE(VF_POP_sub, a, b, 1), VF_POP_sub_mix)
 ;
 #endif
+
+/* ---- affine-coordinate addition / subtraction (ec_point_add / ec_point_sub of a build without
+ * EC_USE_PROJECTIVE; the functions are compiled in every configuration) ----
+ * ec_point_affine_add: a := a + b.  Branch selection:
+ *    b == infinity                    a untouched, status 0
+ *    a == infinity                    a := b (coordinates and flag copied)
+ *    a != b, bx - ax != 0             chord formula (no multiplication by 3), result finite
+ *    a != b, bx - ax == 0, ay == by   doubling
+ *    a != b, bx - ax == 0, ay != by   a := infinity (flag only), status 0
+ *    a == b or doubling               ay == 0 -> infinity, else tangent formula (one multiplication by 3)
+ */
+#ifdef VF_ENFORCE_ec_point_affine_add
+#define VF_G_aadd	VF_EC_ENFORCED_GHOST
+#else
+#define VF_G_aadd	VF_POP_CALLEE(VF_POP_affine_add, a, b, (long)b->infinity)
+#endif
+static inline int
+ec_point_affine_add(ec_point_p a, ec_point_p b, ec_curve_p curve)
+__CPROVER_requires(VF_EC_POINT_OK(a) && VF_EC_POINT_WF(*a) && VF_CURVE_IN_EC(curve))
+__CPROVER_requires(__CPROVER_r_ok(b, sizeof(ec_point_t)) && VF_EC_POINT_WF(*b) && (a == b || !__CPROVER_same_object(a, b)))
+__CPROVER_assigns(b->infinity == 0: VF_EC_POINT_FRAME(a))
+VF_G_aadd
+__CPROVER_ensures(__CPROVER_return_value == 0 ==> VF_EC_POINT_WF(*a))
+__CPROVER_ensures(__CPROVER_old(b->infinity) != 0 ==> __CPROVER_return_value == 0)
+#ifdef VF_ENFORCE_ec_point_affine_add
+__CPROVER_ensures((__CPROVER_old(b->infinity) == 0 && __CPROVER_old(a->infinity) != 0 && __CPROVER_return_value == 0) ==>
+    (a->infinity == 0 && vf_bn_val(a->x) == vf_bn_val(b->x) && vf_bn_val(a->y) == vf_bn_val(b->y)))
+__CPROVER_ensures((__CPROVER_old(b->infinity) == 0 && __CPROVER_old(a->infinity) == 0 && a != b && vf_n_msub >= 1 && !vf_msub_z0 && !vf_ec_fail) ==>
+    (vf_n_mult_digit3 == 0 && (__CPROVER_return_value != 0 || a->infinity == 0)))
+__CPROVER_ensures((__CPROVER_old(b->infinity) == 0 && __CPROVER_old(a->infinity) == 0 && a != b && vf_n_msub >= 1 && vf_msub_z0 &&
+    vf_bn_val(__CPROVER_old(a->y)) != vf_bn_val(b->y)) ==>
+    (__CPROVER_return_value == 0 && a->infinity == 1 && vf_n_mult_digit3 == 0 &&
+     vf_bn_val(a->x) == vf_bn_val(__CPROVER_old(a->x)) && vf_bn_val(a->y) == vf_bn_val(__CPROVER_old(a->y))))
+__CPROVER_ensures((__CPROVER_old(b->infinity) == 0 && __CPROVER_old(a->infinity) == 0 && __CPROVER_return_value == 0 &&
+    (a == b || (vf_n_msub >= 1 && vf_msub_z0 && vf_bn_val(__CPROVER_old(a->y)) == vf_bn_val(b->y)))) ==>
+    ((__CPROVER_old(a->y.digits) == 0) ? (a->infinity == 1 && vf_n_mult_digit3 == 0) : (vf_n_mult_digit3 == 1 && a->infinity == 0)))
+#endif
+;
+/* ec_point_affine_sub: a := a + (-b) with -b = (b.x, p - b.y, b.infinity) in a temporary */
+#ifdef VF_ENFORCE_ec_point_affine_sub
+#define VF_G_asub	VF_EC_ENFORCED_GHOST
+#else
+#define VF_G_asub	VF_POP_CALLEE(VF_POP_affine_sub, a, b, (long)b->infinity)
+#endif
+static inline int
+ec_point_affine_sub(ec_point_p a, ec_point_p b, ec_curve_p curve)
+__CPROVER_requires(VF_EC_POINT_OK(a) && VF_EC_POINT_WF(*a) && VF_CURVE_IN_EC(curve))
+__CPROVER_requires(__CPROVER_r_ok(b, sizeof(ec_point_t)) && VF_EC_POINT_WF(*b) && (a == b || !__CPROVER_same_object(a, b)))
+__CPROVER_assigns(VF_EC_POINT_FRAME(a))
+VF_G_asub
+__CPROVER_ensures(__CPROVER_return_value == 0 ==> VF_EC_POINT_WF(*a))
+#ifdef VF_ENFORCE_ec_point_affine_sub
+__CPROVER_ensures(__CPROVER_return_value == 0 ==> (vf_n_pop == 1 && vf_pop_fn == VF_POP_affine_add && vf_st_pop == 0 &&
+    vf_pop_a == VF_ID(a) && vf_pop_b != VF_ID(a) && vf_pop_b != VF_ID(b)))
+__CPROVER_ensures(__CPROVER_return_value == 0 ==> (
+    VF_ASSIGNED_FROM(vf_pop_b + offsetof(ec_point_t, x), VF_ID(&b->x)) &&
+    VF_ASSIGNED_FROM(vf_pop_b + offsetof(ec_point_t, y), VF_ID(&curve->p))))
+__CPROVER_ensures(__CPROVER_return_value == 0 ==> (vf_n_msub == 1 && vf_msub_bn0 == vf_pop_b + offsetof(ec_point_t, y) &&
+    vf_msub_n0 == VF_ID(&b->y) && vf_msub_m0 == VF_ID(&curve->p)))
+__CPROVER_ensures(__CPROVER_return_value == 0 ==> vf_pop_c == (unsigned long)(long)__CPROVER_old(b->infinity))
+#endif
+;
 
 /* point equality / inverse tests (values are only compared) */
 static inline int
